@@ -10,6 +10,7 @@ import (
 	"encoding/base64"
 	"encoding/json"
 	"fmt"
+	"math"
 	"math/big"
 	"sort"
 	"strings"
@@ -20,7 +21,9 @@ import (
 	sdk "github.com/cosmos/cosmos-sdk/types"
 	banktypes "github.com/cosmos/cosmos-sdk/x/bank/types"
 
+	dispatchertypes "github.com/noble-assets/orbiter/v2/types/component/dispatcher"
 	forwardertypes "github.com/noble-assets/orbiter/v2/types/component/forwarder"
+	"github.com/noble-assets/orbiter/v2/types/core"
 )
 
 type Scenario struct {
@@ -35,6 +38,7 @@ type Scenario struct {
 	Real   bool              `json:"real,omitempty"` // delivered through IBC core
 	Kind   string            `json:"kind,omitempty"`
 	Repl   *replMsg          `json:"replace,omitempty"`
+	SatStats bool            `json:"saturated_stats,omitempty"` // the dispatch counters of the pair's routes sit at 2^64-1, as a validated genesis may hold them
 }
 
 type replMsg struct {
@@ -65,6 +69,35 @@ func (s *Sim) scenarioPacket(sc *Scenario) *Pkt {
 
 func (s *Sim) scenarioEdit(sc *Scenario) shadowEdit {
 	return func(ctx sdk.Context) error {
+		if sc.SatStats {
+			// a state reached through genesis: every counter of this source channel is at its maximum, so the
+			// statistics step of the transfer fails (the module logs that and goes on)
+			g := s.N.App.OrbiterKeeper.ExportGenesis(ctx)
+			src := core.CrossChainID{ProtocolId: core.PROTOCOL_IBC, CounterpartyId: chanA(sc.Pair)}
+			var kept []dispatchertypes.DispatchCountEntry
+			for _, c := range g.DispatcherGenesis.DispatchedCounts {
+				if c.SourceId.CounterpartyId != src.CounterpartyId {
+					kept = append(kept, c)
+				}
+			}
+			add := func(p core.ProtocolID, cp string) {
+				s, d := src, core.CrossChainID{ProtocolId: p, CounterpartyId: cp}
+				kept = append(kept, dispatchertypes.DispatchCountEntry{SourceId: &s, DestinationId: &d, Count: math.MaxUint64})
+			}
+			for _, d := range CCTPDomains {
+				add(core.PROTOCOL_CCTP, fmt.Sprint(d))
+			}
+			for _, d := range HypDomains {
+				add(core.PROTOCOL_HYPERLANE, fmt.Sprint(d))
+			}
+			add(core.PROTOCOL_INTERNAL, "noble")
+			g.DispatcherGenesis.DispatchedCounts = kept
+			if err := g.Validate(); err != nil {
+				panic(harnessErr("genesis with saturated counters does not validate: %v", err))
+			}
+			s.wipeOrbiterStore(ctx)
+			s.N.App.OrbiterKeeper.InitGenesis(ctx, *g)
+		}
 		for _, d := range sortedKeys(sc.Dust) {
 			amt, _ := sdkmath.NewIntFromString(sc.Dust[d])
 			donor := s.Env.Noble[1].Addr
@@ -146,7 +179,8 @@ func drawScenario(s *Sim, r *Rng) *Scenario {
 		p.Passthrough, p.PTNull = r.Bytes(1+r.Intn(60)), false
 	}
 	sc.Memo = p.Canonical()
-	sc.Desc = fmt.Sprintf("route=%s fees=%d dust=%v passthrough=%d", p.Proto, len(p.Fees), len(sc.Dust) > 0, len(p.Passthrough))
+	sc.SatStats = r.Intn(6) == 0
+	sc.Desc = fmt.Sprintf("route=%s fees=%d dust=%v passthrough=%d saturated-counters=%v", p.Proto, len(p.Fees), len(sc.Dust) > 0, len(p.Passthrough), sc.SatStats)
 	return sc
 }
 
@@ -165,7 +199,7 @@ func specialC03(prof *Profile, seed uint64) *RunResult {
 		r := NewRng(seed)
 		sc := drawScenario(s, r)
 		res.Extra = sc
-		s.runC03Scenario(sc, r)
+		s.runC03Scenario(sc, NewRng(scenarioSeed(sc)))
 		return s
 	})
 }
@@ -178,9 +212,22 @@ func replayC03(prof *Profile, rf *ReplayFile) *RunResult {
 		if err := json.Unmarshal(bz, &sc); err != nil {
 			panic(harnessErr("bad scenario in replay file: %v", err))
 		}
-		s.runC03Scenario(&sc, NewRng(rf.Seed))
+		s.runC03Scenario(&sc, NewRng(scenarioSeed(&sc)))
 		return s
 	})
+}
+
+// scenarioSeed: the choices made while a scenario is checked (which pairs, which fault is delivered for real)
+// are a function of the scenario alone, so that a replay file reproduces them exactly.
+func scenarioSeed(sc *Scenario) uint64 {
+	h := uint64(1469598103934665603)
+	for _, x := range []string{sc.Memo, sc.Amount, sc.Denom, fmt.Sprint(sc.Pair, sc.Limit, sc.SatStats)} {
+		for i := 0; i < len(x); i++ {
+			h ^= uint64(x[i])
+			h *= 1099511628211
+		}
+	}
+	return h
 }
 
 func (s *Sim) runC03Scenario(sc *Scenario, r *Rng) {
@@ -207,6 +254,13 @@ func (s *Sim) runC03Scenario(sc *Scenario, r *Rng) {
 	}
 	if nb != 1 {
 		s.violate("C03", "success-only-after-all-movements", "bridge-requests="+fmt.Sprint(nb), fmt.Sprintf("scenario %s: success ack with %d bridge requests", sc.Desc, nb))
+	}
+	// the requests were made on state that was kept: after a success nothing of the transferred denomination is
+	// left on the orbiter account (whatever was there before has gone to the dust collector)
+	for _, ln := range dry.V.Deltas {
+		if strings.HasPrefix(ln, s.Env.Orbiter.String()+"/"+sc.Denom+": ") && !strings.HasSuffix(ln, " -> 0") {
+			s.violate("C03", "success-only-after-all-movements", "success-ack-with-funds-left-behind (scenario)", fmt.Sprintf("scenario %s: %s", sc.Desc, ln))
+		}
 	}
 	if dry.V.OrbStore == digestStore(s.N.Ctx().KVStore(s.N.App.GetKey("orbiter"))) {
 		s.violate("C03", "success-only-after-all-movements", "statistics-not-updated", fmt.Sprintf("scenario %s", sc.Desc))
